@@ -141,9 +141,14 @@ Record env : Type := Env {
   e_qfrom_nil_safe : bool;
   e_qfrom_default_panics : bool;
   e_excl : list (string * list string);     (* named exclusions: Go fields not on the wire *)
-  e_re_norm : list N -> option (list N)
+  e_re_norm : list N -> option (list N);
     (* external (regexp engines): None = the pattern does not parse/compile; Some s' = it does and
        syntax.Parse followed by RegexpString prints it as s' *)
+  e_nilfrom : list (string * outcome val)
+    (* XFromProto(nil) for every struct type whose FromProto reads the message only through getters:
+       what the function returns for an UNSET sub-message.  Go's generated getters answer the zero
+       value on a nil receiver, so the entry must equal the model's FromProto of the message with
+       every field unset ([nilfrom_ok]; for the generated tables: theorem C24_unset_message_is_empty_message). *)
 }.
 
 Definition rows_of (E : env) (to : bool) (n : string) : option (list row) :=
@@ -207,12 +212,15 @@ Fixpoint apply (E : env) (c : conv) (v : val) {struct v} : outcome val :=
               Ok (VR fs')
           | VNil =>
               (* guarded callee: nil stays nil.  Otherwise ToProto on a nil receiver dereferences
-                 it; FromProto reads a nil message through getters (zero values; approximated by
-                 the zero record) *)
+                 it; FromProto reads a nil message through getters, i.e. it converts the message
+                 with every field unset: [e_nilfrom] (it may return a value, an error, or panic in a
+                 nested conversion); a FromProto that reads a field directly dereferences nil *)
               if nilable then Ok VNil
               else if to then Panic P_NIL
               else match lookup n (e_tables E) with
-                   | Some t => if t_from_nilsafe t then Ok (zero_rec rows) else Panic P_NIL
+                   | Some t => if t_from_nilsafe t
+                               then match lookup n (e_nilfrom E) with Some o => o | None => Err ERR_SHAPE end
+                               else Panic P_NIL
                    | None => Err ERR_SHAPE
                    end
           | _ => Err ERR_SHAPE
@@ -538,13 +546,16 @@ Definition safe_payload_conv (E : env) (c : conv) : bool :=
 Definition row_safe (E : env) (r : row) : bool :=
   match r_src r with None => true | Some (_, c) => safe_conv E c end.
 
+Definition not_panic (o : outcome val) : bool := match o with Panic _ => false | _ => true end.
+
 Definition from_safe (E : env) : bool :=
   e_qfrom_nil_safe E && negb (e_qfrom_default_panics E) &&
   forallb (fun nt => forallb (row_safe E) (t_from (snd nt))) (e_tables E) &&
   forallb (fun kc => safe_payload_conv E (snd (snd kc))) (e_qfrom E) &&
   match lookup "" (e_qfrom E) with None => true | Some _ => false end &&
   match lookup "zoekt.SearchOptions" (e_tables E) with Some _ => true | None => false end &&
-  forallb (fun nt => t_from_nilsafe (snd nt)) (e_tables E).
+  forallb (fun nt => t_from_nilsafe (snd nt)) (e_tables E) &&
+  forallb (fun no => not_panic (snd no)) (e_nilfrom E).
 
 (* ---------------------------------------------------------------- correspondence runner *)
 
@@ -594,8 +605,17 @@ Inductive wcase : Type :=
   (* the real conversion function for [c] was run on [inp] and produced [obs] *)
 | WDom (ct cf : conv) (v : val) (retab : list (list N * option (list N)))
   (* the harness generated [v] as a member of the round-trip domain *)
-| WHandler (h : N) (req : val) (cls : N) (retab : list (list N * option (list N))).
+| WHandler (h : N) (req : val) (cls : N) (retab : list (list N * option (list N)))
+| WNilFrom (n : string) (obs : outcome val) (retab : list (list N * option (list N))).
+  (* the real XFromProto of struct type [n] was called with a nil message and produced [obs] *)
   (* the real handler was called: cls 0 = response or an error of the searcher, 1 = InvalidArgument, 3 = panic *)
+
+(** XFromProto(nil): nil for a guarded function, otherwise the conversion of the unset message *)
+Definition nil_from (E : env) (n : string) : outcome val :=
+  match lookup n (e_tables E) with
+  | Some t => apply E (CRec false (t_from_nilguard t) n) VNil
+  | None => Err ERR_SHAPE
+  end.
 
 (** the harness lists, for every pattern string it uses, whether it parses and how it is re-printed;
     strings it does not list are left alone *)
